@@ -27,7 +27,7 @@ META = {
     "Oracles: structure, every number bitwise (4 ulp for wrapped angles / renormalised measurement quaternions), chi2, and the file tokens re-parsed by the reference tokenizer. "
     "non-trivial = graph has at least one edge or an extreme scalar",
     "assumptions": ["real temp files in a private mkdtemp directory", "an SE(3) landmark edge whose offset is not registered in the graph's parameter table is outside the property's domain", "custom edges (no to_g2o) are outside the property's domain"],
-    "required_classes": ["edit_between_exports", "slots2d", "slots3d", "quat_slot", "w_negative_measurement", "shape", "ids_special", "vertex_order_permuted", "omega", "refuse", "refuse_unregistered", "graph_without_parameters", "same_id_for_2d_and_3d_parameter", "cycles", "offset_rotated", "shared_param", "mixed_world", "cross_term_information"],
+    "required_classes": ["edit_between_exports", "slots2d", "slots3d", "quat_slot", "w_negative_measurement", "shape", "ids_special", "vertex_order_permuted", "omega", "refuse", "refuse_unregistered", "line_count:1", "line_count:1001", "graph_without_parameters", "same_id_for_2d_and_3d_parameter", "cycles", "offset_rotated", "shared_param", "mixed_world", "cross_term_information"],
     "bounds": {"quick": "all slot substitutions; shapes with <=3 edges; 3 cycles", "thorough": "same + pairs of extreme scalars on vertex slots; 5 cycles"},
 }
 
@@ -266,6 +266,11 @@ def run_chunk(chunk, tier, seed):
                         continue
                     _do(acc, {"t": "edit", "world": world, "path": path, "cycles": 1}, ctx)
         elif typ == "mixed":
+            # sizes: a graph that is exported as exactly one line, and graphs of 1000 / 1001 / 1002 lines
+            for kind in ("SE2", "SE3", "R2", "R3"):
+                _do(acc, {"t": "size", "kind": kind, "nv": 1, "ne": 0, "cycles": 2}, ctx)
+            for nv, ne in ((400, 600), (400, 601), (400, 602)):
+                _do(acc, {"t": "size", "kind": "SE2", "nv": nv, "ne": ne, "cycles": 1}, ctx)
             for ms2 in _multisets(4, 2):
                 for ms3 in _multisets(4, 2):
                     _do(acc, {"t": "mixed", "ms2": ms2, "ms3": ms3, "cycles": 2}, ctx)
@@ -334,6 +339,13 @@ def spec_of(case):
         if case.get("noparams"):
             sp["params"] = []
         return sp
+    if t == "size":
+        k = case["kind"]
+        base = {"SE2": [0.5, -0.25, 0.75], "SE3": [0.5, -0.25, 0.75] + Q1, "R2": [0.5, -0.25], "R3": [0.5, -0.25, 0.75]}[k]
+        d = 2 if k in ("SE2", "R2") else 3
+        vs = [{"id": i, "kind": k, "pose": [x + 0.125 * i for x in base[:d]] + base[d:]} for i in range(case["nv"])]
+        es = [{"type": "odo", "ids": [j % case["nv"], (7 * j + 1) % case["nv"] if (7 * j + 1) % case["nv"] != j % case["nv"] else (j + 1) % case["nv"]], "z": [0.01 * j, -0.5, 0.25], "om": _upper_spd(3, 1)} for j in range(case["ne"])]
+        return {"vertices": vs, "edges": es, "params": []}
     if t == "mixed":
         sp = mixed_spec(case["ms2"], case["ms3"])
         if case.get("same_param_id"):
@@ -443,6 +455,8 @@ def _eval_roundtrip(case, ctx):
             classes.append("shared_param")
         if case.get("noparams"):
             classes.append("graph_without_parameters")
+    elif t == "size":
+        classes.append("line_count:%d" % (case["nv"] + case["ne"]))
     elif t == "mixed":
         classes.append("mixed_world")
         if case.get("same_param_id"):
